@@ -364,8 +364,10 @@ def _pre(cfg=None, log=True):
     return s, cfg
 
 
-POST_FAULT = ["dump", "stop", "start @CFG@", "tick 9", "timeout", "dump", "timeout", "dump"]
-POST_CRASH = ["start @CFG@", "dump", "tick 9", "timeout", "dump", "timeout", "dump"]
+# (the first pass after the restart runs in the same second as the disturbed one: whatever that one left behind
+# under a version name is in the way and must be treated as a taken name; then time passes and everything is due)
+POST_FAULT = ["dump", "stop", "start @CFG@", "timeout", "dump", "tick 9", "timeout", "dump", "timeout", "dump"]
+POST_CRASH = ["start @CFG@", "dump", "timeout", "dump", "tick 9", "timeout", "dump", "timeout", "dump"]
 
 
 def scenarios(tier="quick"):
@@ -459,6 +461,12 @@ def scenarios(tier="quick"):
 
     s, _ = _pre(); s.start()
     add("exec_editor_elf", s, ["exec 5 " + hexs(X + "/elf/vim")])
+
+    # an editor binary is executed (its loader is learnt from the image), then the process executes that loader and
+    # writes: if the exec event was handled without an error, the process is still an editor and the write is queued
+    s, _ = _pre(); s.put(WATCH + "/a.txt", "hello"); s.start()
+    add("exec_then_loader", s, ["exec 5 " + hexs(X + "/elf/vim")])
+    out[-1]["repair"] = ["exec 5 " + hexs(X + "/ld.so"), "write 5 " + hexs(WATCH + "/a.txt"), "dump"]
 
     if tier != "quick":
         s, _ = _pre(); s.putn(A, 70000, 3); s.start(); s.add("chunk 4096"); s.write(7, A)
